@@ -11,10 +11,10 @@ import (
 	codectypes "github.com/cosmos/cosmos-sdk/codec/types"
 	sdk "github.com/cosmos/cosmos-sdk/types"
 	txtypes "github.com/cosmos/cosmos-sdk/types/tx"
-	authztypes "github.com/cosmos/cosmos-sdk/x/authz"
 	"github.com/cosmos/cosmos-sdk/types/tx/signing"
 	"github.com/cosmos/cosmos-sdk/x/auth/migrations/legacytx"
 	authsigning "github.com/cosmos/cosmos-sdk/x/auth/signing"
+	authztypes "github.com/cosmos/cosmos-sdk/x/authz"
 	ethcrypto "github.com/ethereum/go-ethereum/crypto"
 
 	"github.com/EscanBE/evermint/v12/app/params"
@@ -41,6 +41,8 @@ type doc struct {
 	Payer   string
 	Timeout uint64
 	Tip     *txtypes.Tip
+	ExtOpts []*codectypes.Any // protobuf body only
+	NonCrit []*codectypes.Any // protobuf body only
 }
 
 func (d *doc) clone() *doc {
@@ -71,7 +73,7 @@ func (d *doc) renderProto(pub *ethsecp256k1.PubKey) []byte {
 	for i, m := range d.Msgs {
 		anys[i] = mustAny(m)
 	}
-	body := &txtypes.TxBody{Messages: anys, Memo: d.Memo, TimeoutHeight: d.Timeout}
+	body := &txtypes.TxBody{Messages: anys, Memo: d.Memo, TimeoutHeight: d.Timeout, ExtensionOptions: d.ExtOpts, NonCriticalExtensionOptions: d.NonCrit}
 	ai := &txtypes.AuthInfo{
 		SignerInfos: []*txtypes.SignerInfo{{
 			PublicKey: mustAny(pub),
@@ -330,7 +332,10 @@ func perturbations(r *vh.RNG, d *doc, signer []byte) []pert {
 			add("msg-retype:"+k.name, "msg-retype", k.name, false, func(c *doc) bool { c.Msgs[i] = n; return true })
 		}
 	}
-	// unlisted transaction fields (measured only)
+	// transaction fields the statement does not list by name. Its conclusion - a signature for one transaction can never
+	// authorise a different one - covers them all the same: a rendering may refuse a document that carries one, but two
+	// documents that differ in one may not share typed data, and a signature over one may not verify for the other.
+	// (They stay out of the run-wide collision index, which is keyed by the listed fields.)
 	add("fee_granter", "unlisted", "", true, func(c *doc) bool { c.Granter = accStr(genAddrBytes(r)); return true })
 	add("fee_payer", "unlisted", "", true, func(c *doc) bool { c.Payer = accStr(genAddrBytes(r)); return true })
 	add("timeout_height", "unlisted", "", true, func(c *doc) bool { c.Timeout = uint64(r.Range(1, 1_000_000)); return true })
@@ -338,6 +343,18 @@ func perturbations(r *vh.RNG, d *doc, signer []byte) []pert {
 		c.Tip = &txtypes.Tip{Amount: genCoins(r, 1), Tipper: accStr(genAddrBytes(r))} // only the protobuf AuthInfo carries it
 		return true
 	})
+	opt := func() []*codectypes.Any {
+		switch r.Intn(3) {
+		case 0:
+			return []*codectypes.Any{mustAny(genSend(r, genAddrBytes(r)))}
+		case 1:
+			return []*codectypes.Any{{TypeUrl: "/verif.Unknown", Value: r.Bytes(1 + r.Intn(20))}}
+		default:
+			return []*codectypes.Any{{TypeUrl: "/ethermint.types.v1.ExtensionOptionDynamicFeeTx", Value: []byte{0x0a, 0x01, byte('1' + r.Intn(9))}}}
+		}
+	}
+	add("non_critical_extension_options", "unlisted", "", true, func(c *doc) bool { c.NonCrit = opt(); return true }) // protobuf body only
+	add("extension_options", "unlisted", "", true, func(c *doc) bool { c.ExtOpts = opt(); return true })              // protobuf body only
 	return out
 }
 
@@ -464,7 +481,7 @@ func (d *doc) renderProtoTwoSigners(pub, payerPub *ethsecp256k1.PubKey, paySeq u
 	for i, m := range d.Msgs {
 		anys[i] = mustAny(m)
 	}
-	body := &txtypes.TxBody{Messages: anys, Memo: d.Memo, TimeoutHeight: d.Timeout}
+	body := &txtypes.TxBody{Messages: anys, Memo: d.Memo, TimeoutHeight: d.Timeout, ExtensionOptions: d.ExtOpts, NonCriticalExtensionOptions: d.NonCrit}
 	mode := &txtypes.ModeInfo{Sum: &txtypes.ModeInfo_Single_{Single: &txtypes.ModeInfo_Single{Mode: signing.SignMode_SIGN_MODE_DIRECT}}}
 	ai := &txtypes.AuthInfo{
 		SignerInfos: []*txtypes.SignerInfo{{PublicKey: mustAny(pub), ModeInfo: mode, Sequence: d.Seq}, {PublicKey: mustAny(payerPub), ModeInfo: mode, Sequence: paySeq}},
@@ -639,11 +656,7 @@ func (e *docEnv) checkDoc(i int) {
 					run.Distinct("reject_other_messages", trunc(err.Error(), 160))
 				}
 			case bytes.Equal(rawA, rawB):
-				if p.unlisted {
-					run.Count("doc.unlisted-field-same-hash:"+format+":"+p.class, 1)
-				} else {
-					viol(run, "eip712-hash-collision:"+p.class, label, witness(map[string]any{"typed_bytes_B": short(rawB)}))
-				}
+				viol(run, "eip712-hash-collision:"+p.class, label, witness(map[string]any{"typed_bytes_B": short(rawB)}))
 			default:
 				run.Count("doc.hash-differs:"+format+":"+p.group, 1)
 				run.Nontrivial("doc|" + format + "|" + p.class)
@@ -658,11 +671,7 @@ func (e *docEnv) checkDoc(i int) {
 				}
 			}
 			if e.verify(pub, bzB, sig712) {
-				if p.unlisted {
-					run.Count("doc.unlisted-field-signature-still-verifies:"+format+":"+p.class, 1)
-				} else {
-					viol(run, "eip712-signature-verifies-for-other-doc:"+p.class, label, witness(map[string]any{"sig_over_typed_A": short(sig712)}))
-				}
+				viol(run, "eip712-signature-verifies-for-other-doc:"+p.class, label, witness(map[string]any{"sig_over_typed_A": short(sig712)}))
 			} else {
 				run.Count("doc.sig712-rejected-for-perturbed:"+format+":"+p.group, 1)
 			}
